@@ -52,8 +52,36 @@ def pOffered : P (RectAlloc α) := do
   let alloc ← pList (do let n ← tok; let v ← pSc (α := α); pure (n, v))
   pure { rect, alloc }
 
+/-- loop state of the `loop` op: the observed answers of `must_be_refined` and outcomes of `optimize_allocation`
+    (true = returned) still to be consumed, and the log of what the model did (reversed). -/
+structure LoopSt where
+  ms : List Bool
+  os : List Bool
+  log : List String
+
+def loopOptimize (s : LoopSt) : Option LoopSt :=
+  match s.os with
+  | [] => some { s with log := "?" :: s.log }          -- the model optimises where the observed run did not
+  | true :: r => some { s with os := r, log := "O" :: s.log }
+  | false :: _ => none                                  -- the optimiser raised
+
+/-- replay of the loop structure of `glbfloor` against an observed run: `max_iter` (`-1` = None), fuel, the observed
+    `must_be_refined` answers and `optimize_allocation` outcomes.  (When the observations run out the model is told
+    "must refine", so that any extra consultation shows up in the log.) -/
+def loopReplay (maxIter : Int) (fuel : Nat) (ms os : List Bool) : String :=
+  let mi : Option Nat := if maxIter < 0 then none else some maxIter.toNat
+  match Glb.loopG loopOptimize (fun s => s.ms.head?.getD true)
+      (fun s => { s with ms := s.ms.tail, log := "R" :: s.log }) mi fuel 1 { ms := ms, os := os, log := [] } with
+  | none => "none"
+  | some s =>
+    let ev := if s.log.isEmpty then "-" else String.intercalate "," s.log.reverse
+    let rest := if s.ms.isEmpty then "-" else String.join (s.ms.map b01)
+    s!"ret {ev} {rest} {s.os.length}"
+
 def glbOp (op : String) (args : List String) : Option String :=
   match op with
+  | "loop" => (runP (do let mi ← pInt; let fuel ← pNat; let ms ← pList pBool; let os ← pList pBool; pure (mi, fuel, ms, os)) args).map
+      fun (mi, fuel, ms, os) => loopReplay mi fuel ms os
   | "sum" => (runP (pList (pSc (α := α))) args).map fun xs => sc (pySum xs)
   | "recenter" => (runP (do let cx ← pSc (α := α); let cy ← pSc; let rs ← pList pRect; pure (cx, cy, rs)) args).map
       fun (cx, cy, rs) => match recenter cx cy rs with | none => "err:ZeroDiv" | some rs' => showRects rs'
